@@ -92,6 +92,70 @@ package tan
 //@ modifies *w
 
 //@ func (w *writer) writeRecord [C10 C04]
-//@ modifies *w
+//@ modifies *w, gWriteFailed
+//@ ghostset gWriteFailed := old(gWriteFailed) || result1 != nil
 //@ ensures result1 == nil ==> w.err == nil
 //@ ensures old(w.err) != nil ==> result1 != nil
+
+// ---------------------------------------------------------------- publish by rename only after a complete, synced write (C10)
+// tan replaces live files (log, index, bootstrap record, CURRENT) by writing a temporary file
+// and renaming it over the live one. The rename is the commit point: it must not happen once
+// any write, sync or close of the temporary file, or any read of the source, has failed.
+//@ ghost var gWriteFailed bool
+//@ ghost var gReadFailed bool
+//@ extern github.com/lni/vfs (f File) Sync
+//@ ghostset gWriteFailed := old(gWriteFailed) || result != nil
+//@ extern github.com/lni/vfs (f File) Close
+//@ ghostset gWriteFailed := old(gWriteFailed) || result != nil
+//@ extern github.com/lni/vfs (fs FS) Create
+//@ ensures result1 == nil ==> result0 != nil
+//@ ghostset gWriteFailed := old(gWriteFailed) || result1 != nil
+//@ extern github.com/lni/vfs (fs FS) Rename
+//@ requires !gWriteFailed && !gReadFailed
+//@ extern github.com/lni/vfs (fs FS) RemoveAll
+//@ ghostset gWriteFailed := old(gWriteFailed) || result != nil
+//@ func makeFilename [C10]
+//@ trusted pure path computation
+//@ func makeBootstrapFilename [C10]
+//@ trusted pure path computation
+//@ func newWriter [C10]
+//@ trusted allocates a record writer over the file
+//@ ensures result != nil
+//@ func (w *writer) close [C10]
+//@ trusted flushes the last block; reports the writer's error
+//@ ghostset gWriteFailed := old(gWriteFailed) || result != nil
+//@ func (w *writer) next [C10]
+//@ trusted starts a new record
+//@ ghostset gWriteFailed := old(gWriteFailed) || result1 != nil
+//@ func IsInvalidRecord [C10]
+//@ trusted classifies the error of a torn / corrupted tail record
+//@ ensures result == ufb("invalidrec", obj(err))
+// reading the source log: a torn tail is expected after a crash, any other error is a failure
+//@ func (d *db) readLog [C10]
+//@ trusted scans the records of a log file and hands each update to the callback
+//@ modifies captured(h), gReadFailed
+//@ ghostset gReadFailed := old(gReadFailed) || (result != nil && !ufb("invalidrec", obj(result)))
+
+// the copy callback of rebuildLog: a failed write is remembered in herr
+//@ func (d *db) rebuildLog$3 [C10]
+//@ noframe
+//@ nobounds
+//@ invariant gWriteFailed ==> *herr != nil
+
+//@ func (d *db) rebuildLog [C10]
+//@ noframe
+//@ nobounds
+//@ requires !gWriteFailed && !gReadFailed
+//@ modifies gWriteFailed, gReadFailed
+
+//@ func saveBootstrap [C10]
+//@ noframe
+//@ nobounds
+//@ requires !gWriteFailed && !gReadFailed
+//@ modifies gWriteFailed
+
+//@ func setCurrentFile [C10]
+//@ noframe
+//@ nobounds
+//@ requires !gWriteFailed && !gReadFailed
+//@ modifies gWriteFailed
